@@ -160,6 +160,12 @@ class W:
     def transpose(self):
         return self.T
 
+    def setflags(self, *a, **k):        # numpy array method with no mathematical content
+        return None
+
+    def copy(self, *a, **k):
+        return self
+
     @property
     def shape(self):
         return (self.rows, self.cols)
